@@ -130,6 +130,11 @@ fn msg(value: &str, style: usize) -> Value {
             '\t' => lit.push_str("\\t"),
             '\r' => lit.push_str("\\r"),
             '\'' if style == 1 => lit.push_str("\\'"),
+            c if style == 2 && !c.is_ascii() => {
+                let h = format!("{:X}", c as u32);
+                let h = if h.len() > 2 { format!("{}_{}", &h[..2], &h[2..]) } else { h };
+                lit.push_str(&format!("\\u{{{}}}", h));
+            }
             _ => lit.push(c),
         }
     }
@@ -215,6 +220,10 @@ pub fn run(out: &mut Out, tier: &str, rng: &mut Rng) {
         for kind in ["length", "range"] {
             let t = if kind == "length" { "String" } else { "i32" };
             out.case("validator", json!({"rty": ty(t), "attrs": [[{"k": kind, "min": "1", "max": "10", "message": msg(m, i % 2)}]]}), json!({"gen": "msgs"}));
+            if !m.is_ascii() {
+                // the same text written with `\u{..}` escapes (digits grouped by `_`, which only Rust allows)
+                out.case("validator", json!({"rty": ty(t), "attrs": [[{"k": kind, "min": "1", "message": msg(m, 2)}]]}), json!({"gen": "msgs"}));
+            }
             out.case("validator", json!({"rty": ty(t), "attrs": [[{"k": "email"}, {"k": kind, "min": "2", "message": msg(m, 0), "order": ["message", "min", "max"]}]]}), json!({"gen": "msgs"}));
             // … and the flag validators *after* the one with the message
             out.case("validator", json!({"rty": ty(t), "attrs": [[{"k": kind, "max": "30", "message": msg(m, 0)}, {"k": if i % 2 == 0 { "url" } else { "email" }}]]}), json!({"gen": "msgs"}));
